@@ -2358,16 +2358,17 @@ impl Write for SummaryStream {
 
         /*
          * Look for the last complete pkg_summary(5) record, if there are none
-         * then go to the next input.
+         * then go to the next input.  The search is done on bytes and only
+         * the complete records are validated as UTF-8, as the buffer may end
+         * in the middle of a multi-byte character that is completed by the
+         * next write.
          */
-        let input_string = match std::str::from_utf8(&self.buf) {
-            Ok(s) => {
-                if let Some(last) = s.rfind("\n\n") {
-                    s.get(0..last + 2).unwrap()
-                } else {
-                    return Ok(input.len());
-                }
-            }
+        let last = match self.buf.windows(2).rposition(|w| w == b"\n\n") {
+            Some(last) => last + 2,
+            None => return Ok(input.len()),
+        };
+        let input_string = match std::str::from_utf8(&self.buf[..last]) {
+            Ok(s) => s,
             Err(e) => {
                 return Err(io::Error::new(io::ErrorKind::InvalidData, e))
             }
